@@ -7,7 +7,16 @@ export GOFLAGS=-mod=mod GOPROXY=off GOSUMDB=off GOTOOLCHAIN=local
 d=$(mktemp -d /tmp/seed-XXXXXX)
 git -C /repo worktree add -q --detach "$d/wt" HEAD || exit 2
 cd "$d/wt"
-if ! git apply "$src/patch.diff"; then echo "PATCH DOES NOT APPLY"; cd /; git -C /repo worktree remove --force "$d/wt"; rm -rf "$d"; exit 2; fi
+if ! git apply "$src/patch.diff" 2>/dev/null; then
+  # HEAD has moved since the change was written (fix: commits): merge it
+  if git apply --3way "$src/patch.diff" >/dev/null 2>&1 && ! git diff --name-only --diff-filter=U | grep -q .; then
+    echo "(patch applied by 3-way merge: HEAD has moved since it was written)"
+    git diff HEAD > "$d/merged.diff"; git reset -q; src_patch="$d/merged.diff"
+  else
+    echo "PATCH DOES NOT APPLY"; cd /; git -C /repo worktree remove --force "$d/wt"; rm -rf "$d"; exit 2
+  fi
+fi
+src_patch=${src_patch:-$src/patch.diff}
 go build ./... 2>&1 | head -3
 suite=$(go test -vet=off -count=1 ./... 2>&1 | grep -v "^ok\|no test files" | head -3)
 [ -z "$suite" ] && echo "suite: pass" || echo "suite: FAIL $suite"
@@ -15,11 +24,11 @@ demo=""
 if [ -f "$src/demo_test.go" ]; then
   cp "$src/demo_test.go" ./zz_demo_test.go
   if go test -race -vet=off -count=1 -run 'Demo|C[0-9][0-9]' . >/tmp/seed-demo.out 2>&1; then echo "demo with change: PASSES (unexpected)"; else echo "demo with change: fails (expected)"; fi
-  git apply -R "$src/patch.diff"
+  git apply -R "$src_patch"
   cp "$src/demo_test.go" ./zz_demo_test.go
   if go test -race -vet=off -count=1 -run 'Demo|C[0-9][0-9]' . >/tmp/seed-demo0.out 2>&1; then echo "demo without change: passes (expected)"; else echo "demo without change: FAILS (unexpected)"; tail -5 /tmp/seed-demo0.out; fi
   rm -f zz_demo_test.go
-  git apply "$src/patch.diff"
+  git apply "$src_patch"
 elif [ -f "$src/demo.sh" ]; then
   echo "(demo.sh present: run by hand)"
 fi
